@@ -1,0 +1,31 @@
+//go:build verif
+
+package vhost
+
+// Read-only exports for the verification harness (build tag `verif`); not compiled otherwise.
+
+// VerifGetListener exposes the route lookup used by Muxer.handle.
+func (v *Muxer) VerifGetListener(name, path, httpUser string) (*Listener, bool) {
+	return v.getListener(name, path, httpUser)
+}
+
+// VerifAuth returns the credentials stored on a listener.
+func (l *Listener) VerifAuth() (string, string) { return l.username, l.password }
+
+// VerifRoute returns the (domain, location, httpUser) triple a listener was registered with.
+func (l *Listener) VerifRoute() (string, string, string) { return l.name, l.location, l.routeByHTTPUser }
+
+// VerifDump lists every route currently stored, as (domain, httpUser, location) in slice order.
+func (r *Routers) VerifDump() [][3]string {
+	r.mutex.RLock()
+	defer r.mutex.RUnlock()
+	out := [][3]string{}
+	for d, byUser := range r.indexByDomain {
+		for u, vrs := range byUser {
+			for _, vr := range vrs {
+				out = append(out, [3]string{d, u, vr.location})
+			}
+		}
+	}
+	return out
+}
